@@ -138,6 +138,22 @@ class EnvSession:
         lat_us = int(case.get("latency", 0))
         self.deposit = F(float(Fraction(case.get("deposit", "100000"))))
         self.build_error = None
+        if case.get("pre_env_latency") is not None:
+            # the same Transmitter object first serves another environment, built with a different latency and
+            # run for a reset and a step: nothing of that may leak into the environment under test
+            try:
+                if sp["kind"] == "box":
+                    space0 = BoxPortfolio(keys, float(Fraction(sp["low"])), float(Fraction(sp["high"])))
+                else:
+                    space0 = DiscretePortfolio(keys, [[float(Fraction(x)) for x in a] for a in sp["allocs"]])
+                env0 = TradingEnv(action_space=space0, transmitter=tx, initial_cash=float(self.deposit),
+                                  broker_fees=BrokerFees(markup, self.rate, prop, fixed),
+                                  latency=int(case["pre_env_latency"]) / 1e6, steps_delay=0)
+                env0.reset()
+                env0.step(space0.null_action())
+            except Exception:  # noqa  (whatever happens to the other environment is not what is being judged)
+                pass
+            run.tags.add("shared-transmitter")
         try:
             self.env = TradingEnv(action_space=space, state=IState([rec], save=False), reward=reward, transmitter=tx,
                                   initial_cash=float(self.deposit), broker_fees=BrokerFees(markup, self.rate, prop, fixed),
@@ -149,6 +165,26 @@ class EnvSession:
             self.build_error = str(e)
         self.tx = tx
         self.space = space
+        self.sibling = None
+        if case.get("sibling") and self.env is not None:
+            # another live environment of the same process (own transmitter, own broker, a delay of one step),
+            # stepped with null actions right before every step of the environment under test
+            try:
+                tx1 = Transmitter([from_us(t) for t in case["grid"]], folds, bool(case.get("markov", False)),
+                                  None if wu is None else dt.timedelta(microseconds=wu))
+                tx1.add_events(list(evs))
+                if sp["kind"] == "box":
+                    space1 = BoxPortfolio(keys, float(Fraction(sp["low"])), float(Fraction(sp["high"])))
+                else:
+                    space1 = DiscretePortfolio(keys, [[float(Fraction(x)) for x in a] for a in sp["allocs"]])
+                env1 = TradingEnv(action_space=space1, transmitter=tx1, initial_cash=float(self.deposit),
+                                  broker_fees=BrokerFees(markup, self.rate, prop, fixed), latency=lat_us / 1e6,
+                                  steps_delay=1)
+                env1.reset()
+                self.sibling = (env1, space1)
+                run.tags.add("sibling-environment")
+            except Exception:  # noqa
+                self.sibling = None
         self.seen = 0
         self.obs: list[dict] = []
         # ---- protocol: configuration
@@ -290,10 +326,17 @@ class EnvSession:
             else:
                 what = op[1]
                 action = {"str": "buy", "none": None, "float": 0.5, "nested": [[0.1]], "2d": np.zeros((2, 2)),
-                          "floatidx": 1.0, "bigarr": np.zeros(7)}.get(what, "junk")
+                          "floatidx": 1.0, "bigarr": np.zeros(7), "npfloat": np.float64(1.5), "npneg": np.float64(-0.5),
+                          "arr1": np.array([1]), "arr2d": np.array([[0]]), "arr0f": np.array(0.7),
+                          "f32": np.float32(2.9), "npfloatint": np.float64(1.0)}.get(what, "junk")
                 line = "stepj"
             n_before = len(self.env.broker.track_record)
             pos_before = self.positions()
+            if self.sibling is not None:
+                try:
+                    self.sibling[0].step(self.sibling[1].null_action())
+                except Exception:  # noqa  (the sibling's own fate is not what is being judged)
+                    pass
             try:
                 obs, reward, done, info = self.env.step(action)
                 traded = "_rebalancing" in info
@@ -351,6 +394,12 @@ def run_case(case: dict, compare: set[str] | None = None) -> tuple[ImplRun, EnvS
 
 
 # ---------------------------------------------------------------------- generators
+CONTEXT_RULE = (" Process context: in a quarter of the generated episodes the same Transmitter object first serves another "
+                "environment built with a different (mostly the largest admissible) latency, which is reset and stepped "
+                "once; in 15% a sibling environment (own transmitter, delay 1) stays alive and is stepped with null "
+                "actions right before every step of the environment under test.")
+
+
 def gen_grid(rng, n, intraday):
     if intraday:
         gap = rng.choice([60, 600, 3600]) * SEC
@@ -438,7 +487,12 @@ def gen_episode(rng, tier="quick", *, intraday=None, latency=None, delay=None, n
     markov = (rng.random() < 0.2) if markov is None else markov
     if warmup == "rand":
         warmup = None if rng.random() < 0.6 else rng.choice([mingap, 3 * mingap, DAY, 0])
-    case = dict(contracts=contracts, fees=fees or rng.choice([["0", "0", "0"], ["0", "1/1000", "0"], ["1/4", "1/2000", "1/200"]]),
+    pre_env_latency = None
+    if rng.random() < 0.25:
+        # mostly the largest admissible latency: whatever it leaves behind in the shared transmitter then differs
+        # most from what the environment under test (smaller latency) needs
+        pre_env_latency = max(0, min(rng.choice([0, SEC, mingap // 2, mingap - SEC, mingap - SEC, mingap - SEC]), mingap - SEC))
+    case = dict(pre_env_latency=pre_env_latency, sibling=rng.random() < 0.15, contracts=contracts, fees=fees or rng.choice([["0", "0", "0"], ["0", "1/1000", "0"], ["1/4", "1/2000", "1/200"]]),
                 deposit=rng.choice(["100000", "10000"]), grid=grid_in, events=events, latency=latency, delay=delay,
                 markov=markov, warmup=warmup, space=space,
                 reward=reward or rng.choice(["simple", "pnl", "log", ["logret", "1/100", "2", "1/10"]]))
